@@ -397,6 +397,9 @@ func (u *Unit) execInstr(fr *Frame, st *State, ins ssa.Instruction) *State {
 		et := x.Type().(*types.Pointer).Elem()
 		a := u.newObj(st)
 		addr := MkAddr(a)
+		if isMsgStruct(et) {
+			u.assume(st.pc, App(SBool, "is_msg_obj", a))
+		}
 		u.zeroInit(st, addr, et)
 		fr.vals[x] = &Val{T: addr}
 		return st
